@@ -813,33 +813,6 @@ func (w *bpWorld) vcwd() string {
 	return d
 }
 
-// isRootTarget: destructive calls on the virtual root are kept out of the lock-step
-// (the standalone MemFS deadlocks on Remove("/") and RemoveAll("/") and moves "/" below itself on Rename).
-func isRootTarget(w *bpWorld, op string, a []string) bool {
-	if op != "Remove" && op != "RemoveAll" && op != "Rename" && op != "Link" {
-		return false
-	}
-	vcwd := w.vcwd()
-	var abs []string
-	for _, p := range a {
-		q := p
-		if !strings.HasPrefix(p, "/") {
-			q = vcwd + "/" + p
-		}
-		q = filepath.Clean(q)
-		if q == "/" {
-			return true
-		}
-		abs = append(abs, q)
-	}
-	// OrefaFS.Link / Rename lock the same node twice when the new name lies below the old one
-	// (a defect of that base, not of the wrapper): kept out of the runs over an OrefaFS base
-	if w.kind == "orefafs" && len(abs) == 2 && (abs[1] == abs[0] || strings.HasPrefix(abs[1], abs[0]+"/")) {
-		return true
-	}
-	return false
-}
-
 func hasMetaBp(p string) bool { return strings.ContainsAny(p, `*?[\`) }
 
 type opOut struct {
@@ -852,7 +825,7 @@ func (w *bpWorld) step(op string, a []string) opOut {
 	for _, x := range a {
 		head += " " + tok(x)
 	}
-	if w.dead || isRootTarget(w, op, a) || (bpFile[op] && a[0] == "") {
+	if w.dead || (bpFile[op] && a[0] == "") {
 		// (a MemFile opened with the empty name is unusable, the handle methods of the reference would all
 		// fail while the wrapper's act on the current directory: OpenFile("") itself is covered by Open)
 		return opOut{caseTxt: head + " ; skip", obsTxt: "skip"}
@@ -1479,7 +1452,8 @@ func runBpKf(cfg config) {
 	o.emit("kf renameself", guard(func() string {
 		return fmt.Sprintf("bp=%v ref=%v", w.bp.Rename("a", "/a") == nil, w.ref.Rename("a", "/a") == nil)
 	}), "renameself")
-	// KF-C10-rootops: RemoveAll("/") removes the base directory itself
+	// regression witness of the repaired defect "RemoveAll(\"/\") removes the base directory itself"
+	// (was known finding KF-C10-rootops): the call must fail and B must still exist
 	w = newWorld("memfs", "/c")
 	o.emit("kf rootops", guard(func() string {
 		err := w.bp.RemoveAll("/")
